@@ -314,10 +314,14 @@ class Caps:
         return None, None
 
 
-def analyse(fn, roles, prog, lib_roles=None, want_kinds=("W", "R"), callsite_goals=None):
+def analyse(fn, roles, prog, lib_roles=None, want_kinds=("W", "R"), callsite_goals=None, ssa_caps=None, probe=None, extra_facts=None):
     """returns (obligations, info).  obligation: dict(kind, what, line, root, role, off, size, cap, lo, hi, dead, ordinal)"""
     A = Analysis(fn)
     caps = Caps(fn, roles, prog)
+    A.extra.extend(extra_facts or [])
+    for (pid_, cap_, name_) in (ssa_caps or ()):
+        caps.caps[pid_] = cap_
+        caps.names[pid_] = name_
     nonneg = []
     for p in fn.j["params"]:
         if p["ty"] in ("i64", "i32") and p["name"] in UNSIGNED_PARAMS:
@@ -583,6 +587,15 @@ def analyse(fn, roles, prog, lib_roles=None, want_kinds=("W", "R"), callsite_goa
                         v = i["args"][1]
                         zf = v.get("k") == "c" and v["v"] == 0
                     check(b["id"], "call " + cal, i.get("line"), root, off, size, k, zero_fill=zf)
+    if probe is not None:
+        class Ctx:
+            pass
+        ctx = Ctx()
+        ctx.A = A
+        ctx.fn = fn
+        ctx.facts_at = facts_at
+        ctx.entail_at = lambda blk, goal: bool(entails_split(fn, A, facts_at(blk), goal, hdr_atoms, blk, 0, lambda b: live_facts(b, cands)))
+        res.extend(probe(ctx) or [])
     # ---- zeroing loops: a loop whose only stores put the constant 0 through a cursor into a caller buffer must run to the end of that buffer
     for h, L in fn.loops.items():
         stores = [i for bid in L["blocks"] for i in fn.blocks[bid]["insts"] if i["op"] == "store"]
